@@ -1,21 +1,17 @@
-"""Fault bundle X (w2_faults): the backend machine with fault KINDS (std::exception with text / with EMPTY text / not a
-std::exception), sinks whose override pattern cannot be built, and exceptions that escape the read pass (throwing decoder of a
-user-defined type). Model lean/QuillModel/Backend/Fault.lean (what `driver backend trace` replays), theorems Props/Faults.lean,
-extraction tools/extractors/faults.py -> Obligations/Faults.lean."""
-_LOCAL = ["Backend.C10_write_fault_kind", "Backend.C10_fault_reported_kind", "Backend.C10_flush_fault_reported_kind",
-          "Backend.C10_empty_text_lost_without_notifyAlways", "Backend.C10_pattern_fault_local", "Backend.C16_rejecting_sink_absent",
-          "Backend.writeToSinksF_append", "Backend.processLowestF_pop",
-          "Backend.C10_pattern_fault_in_loop_witness", "Backend.C10_hoisted_pattern_creation_violates",
-          "Backend.C10_empty_text_reported_witness", "Backend.C10_report_if_nonempty_violates",
-          "Obligations.faults_extraction_complete", "Obligations.override_formatter_created_in_loop_after_filter",
-          "Obligations.process_handlers_notify_unconditionally", "Obligations.C10_fault_reported_kind_extracted",
-          "Obligations.C16_dispatch_is_loop_extracted"]
-_ABORT = ["Backend.C05_aborted_poll_is_the_pass", "Backend.C05_aborted_poll_keeps_order_witness", "Backend.C05_catch_per_queue_violates",
-          "Obligations.read_pass_has_no_catch", "Obligations.C05_aborted_poll_extracted"]
-THEOREMS = {"C10": _LOCAL, "C16": ["Backend.C10_pattern_fault_local", "Backend.C16_rejecting_sink_absent",
-                                   "Backend.C10_hoisted_pattern_creation_violates", "Obligations.override_formatter_created_in_loop_after_filter",
-                                   "Obligations.C16_dispatch_is_loop_extracted"],
-            "C05": _ABORT, "C03": ["Backend.C05_aborted_poll_is_the_pass", "Obligations.read_pass_has_no_catch"]}
-MODULES = {p: ["QuillModel.Props.Faults"] for p in THEOREMS}
-OBLIG = ["QuillModel.Obligations.Faults"]
-OBLIG_BY_PROP = {p: ["QuillModel.Obligations.Faults"] for p in THEOREMS}
+"""Proof bundle X: the unbounded queue inside the backend model (Backend/UQueue.lean, USched.lean, UOps.lean — the machine
+`driver backend trace` runs for the UnboundedBlocking / UnboundedDropping builds of H2). Theorems: Props/C03U.lean over the
+chain lemmas of Backend/UQueueProofs.lean and Backend/UThread.lean. The `_partial` ones are proved for every context state and
+every queue operation of the machine; the induction over `runOpsU` (walk of pollU / exitLoopU) is not done."""
+_T = ["Backend.C03U_conservation", "Backend.C03U_queue_coherent", "Backend.C03U_fresh_state", "Backend.US.runOpsU_closed", "Backend.US.UI.closed",
+      "Backend.C03U_enqueue_keeps", "Backend.C03U_shrink_keeps", "Backend.C03U_read_keeps",
+      "Backend.C03U_offer_means_pending", "Backend.C03U_commit_pop_keep", "Backend.tryEnqU_answer",
+      "Backend.UQ.uRead_spec", "Backend.UQ.uPrepareRead_spec", "Backend.UQ.TI.enq", "Backend.UQ.TI.prepareWrite"]
+THEOREMS = {
+    "C03": _T,
+    "C20": ["Backend.C20U_empty_test_sound_run", "Backend.C20U_empty_test_sound", "Backend.C03U_shrink_keeps", "Backend.UQ.TI.empty_sound"],
+    "C09": ["Backend.C09U_blocked_call_granted_after_drain", "Backend.C09U_drain_publishes", "Backend.qPrepareWrite_drained",
+            "Backend.C09U_parked_call_resumes_partial", "Backend.uPrepareWrite_drained_grants"],
+}
+MODULES = {"C03": ["QuillModel.Props.C03U"], "C20": ["QuillModel.Props.C03U"], "C09": ["QuillModel.Props.C03U", "QuillModel.Props.C09U"]}
+OBLIG = []
+OBLIG_BY_PROP = {}
